@@ -19,9 +19,9 @@ def intOf? : Str → Option Int
 
 /-- `float(s)`: `+Inf`, `NaN`, digits with an optional `.5` (coded as an odd "half" value) or `e0` tail -/
 def fltOf? (s : Str) : Option Nat :=
-  if s = "+Inf".toList then some 1
-  else if s = "NaN".toList then some 0
-  else if s = "0.5".toList then some 2
+  if s = cs!"+Inf" then some 1
+  else if s = cs!"NaN" then some 0
+  else if s = cs!"0.5" then some 2
   else match natOf? s with
     | some n => some (3 + n)
     | none =>
